@@ -927,6 +927,166 @@ func runC03(c *core.Ctx) core.Meta {
 		}
 	}
 
+	// ---------------- R03.11 integer min / max select the right operand ----------------
+	st11 := c.Rule("R03.11", "every integer min / max handler (tied to its name through decode table -> dispatch switch -> callee) writes S0 when S0 is the smaller (min) / larger (max) operand and S1 when S1 is, decided by resolving the handler's comparisons of the two operand values under each ordering and following the value that reaches the destination write through the control flow (phi resolution along the path); the compared values have the signedness the mnemonic prescribes", 8)
+	mmName := regexp.MustCompile(`^[sv]_(min|max)_([iu])(16|32|64)(_e32|_e64)?$`)
+	seen11 := map[string]bool{}
+	for _, h := range handlers {
+		for _, iname := range h.insts {
+			m := mmName.FindStringSubmatch(iname)
+			if m == nil || seen11[h.alu.pkg+"."+h.name+"|"+m[1]+m[2]] {
+				continue
+			}
+			seen11[h.alu.pkg+"."+h.name+"|"+m[1]+m[2]] = true
+			fn := c.SSAFunc(h.alu.pkg, h.alu.typ+"."+h.name)
+			if fn == nil {
+				continue
+			}
+			side := func(v ssa.Value) string {
+				pv := prov.Of(v)
+				if !strings.Contains(pv, "ReadOperand(") {
+					return ""
+				}
+				has0, has1 := strings.Contains(pv, ".Src0"), strings.Contains(pv, ".Src1")
+				switch {
+				case has0 && !has1:
+					return "S0"
+				case has1 && !has0:
+					return "S1"
+				}
+				return ""
+			}
+			// under ordering k, which operand can reach the destination write?
+			reachOperands := func(k byte) (map[string]bool, types.Type, bool) {
+				out := map[string]bool{}
+				var cmpType types.Type
+				sawCmp := false
+				type key struct {
+					b, pred *ssa.BasicBlock
+				}
+				seen := map[key]bool{}
+				var walk func(b, pred *ssa.BasicBlock, env map[*ssa.Phi]ssa.Value)
+				resolve := func(v ssa.Value, env map[*ssa.Phi]ssa.Value) ssa.Value {
+					for i := 0; i < 8; i++ {
+						switch t := v.(type) {
+						case *ssa.Convert:
+							v = t.X
+							continue
+						case *ssa.ChangeType:
+							v = t.X
+							continue
+						case *ssa.Phi:
+							if r, ok := env[t]; ok {
+								v = r
+								continue
+							}
+						case *ssa.Call:
+							// asInt32(uint32(x)) style helpers keep the operand
+							if cal := t.Call.StaticCallee(); cal != nil && len(t.Call.Args) == 1 && strings.Contains(strings.ToLower(cal.Name()), "int") {
+								v = t.Call.Args[0]
+								continue
+							}
+						}
+						break
+					}
+					return v
+				}
+				walk = func(b, pred *ssa.BasicBlock, env map[*ssa.Phi]ssa.Value) {
+					if seen[key{b, pred}] {
+						return
+					}
+					seen[key{b, pred}] = true
+					env2 := map[*ssa.Phi]ssa.Value{}
+					for k2, v2 := range env {
+						env2[k2] = v2
+					}
+					for _, in := range b.Instrs {
+						if phi, ok := in.(*ssa.Phi); ok && pred != nil {
+							for i, p := range b.Preds {
+								if p == pred {
+									env2[phi] = resolve(phi.Edges[i], env)
+								}
+							}
+						}
+						if name, cc := stateMethod(in); name == "WriteOperand" && strings.HasSuffix(prov.Of(cc.Args[0]), ".Dst") {
+							if sd := side(resolve(cc.Args[len(cc.Args)-1], env2)); sd != "" {
+								out[sd] = true
+							} else {
+								out["?"] = true
+							}
+						}
+					}
+					if iff, ok := b.Instrs[len(b.Instrs)-1].(*ssa.If); ok {
+						if bo, ok := iff.Cond.(*ssa.BinOp); ok {
+							sx, sy := side(bo.X), side(bo.Y)
+							if (sx == "S0" && sy == "S1") || (sx == "S1" && sy == "S0") {
+								sawCmp = true
+								cmpType = bo.X.Type()
+								kk := k
+								if sx == "S1" { // mirrored
+									kk = map[byte]byte{'L': 'G', 'G': 'L', 'E': 'E'}[k]
+								}
+								var holds bool
+								switch bo.Op {
+								case token.LSS:
+									holds = kk == 'L'
+								case token.LEQ:
+									holds = kk != 'G'
+								case token.GTR:
+									holds = kk == 'G'
+								case token.GEQ:
+									holds = kk != 'L'
+								case token.EQL:
+									holds = kk == 'E'
+								case token.NEQ:
+									holds = kk != 'E'
+								}
+								if holds {
+									walk(b.Succs[0], b, env2)
+								} else {
+									walk(b.Succs[1], b, env2)
+								}
+								return
+							}
+						}
+					}
+					for _, sc := range b.Succs {
+						walk(sc, b, env2)
+					}
+				}
+				walk(fn.Blocks[0], nil, map[*ssa.Phi]ssa.Value{})
+				return out, cmpType, sawCmp
+			}
+			lres, ct, saw := reachOperands('L')
+			gres, _, _ := reachOperands('G')
+			if !saw || lres["?"] || gres["?"] || len(lres) == 0 {
+				st11.Sample("%s.%s (%s): operand selection not recognised; not modelled", h.alu.typ, h.name, iname)
+				continue
+			}
+			st11.Instances++
+			c.MarkAnalysed(fn)
+			wantL, wantG := "S0", "S1" // min
+			if m[1] == "max" {
+				wantL, wantG = "S1", "S0"
+			}
+			okSel := len(lres) == 1 && lres[wantL] && len(gres) == 1 && gres[wantG]
+			st11.Ob(okSel)
+			st11.Sample("%s.%s (%s): S0<S1 writes %v, S0>S1 writes %v", h.alu.typ, h.name, iname, sortedKeys(lres), sortedKeys(gres))
+			if !okSel {
+				c.ReportAt("R03.11", fn, fn.Pos(), "select-table:"+m[1]+"_"+m[2]+m[3], fmt.Sprintf("%s writes %v when S0 < S1 and %v when S0 > S1; %s writes %s and %s", h.name, sortedKeys(lres), sortedKeys(gres), iname, wantL, wantG))
+			}
+			if bt, ok := ct.Underlying().(*types.Basic); ok {
+				st11.Instances++
+				unsigned := bt.Info()&types.IsUnsigned != 0
+				okT := bt.Info()&types.IsInteger != 0 && unsigned == (m[2] == "u")
+				st11.Ob(okT)
+				if !okT {
+					c.ReportAt("R03.11", fn, fn.Pos(), "select-type:"+m[2]+m[3], fmt.Sprintf("%s compares values of Go type %s; %s orders its operands as %s integers", h.name, bt.Name(), iname, map[string]string{"i": "signed", "u": "unsigned"}[m[2]]))
+				}
+			}
+		}
+	}
+
 	// ---------------- R03.2 shift-amount masking ----------------
 	st2 := c.Rule("R03.2", "in handlers of shift instructions (tied to their names through decode table -> dispatch switch -> callee) every data-dependent shift amount is confined to [0, W-1] (W from the instruction name) by a mask or modulus before it reaches the Go shift, because Go saturates where the ISA uses the low 4/5/6 bits", 15)
 	seenH := map[string]bool{}
